@@ -44,6 +44,18 @@ static void set_name(char* dst, sk_rng* r, const char* pfx, size_t n)
 		memset(dst, 'A', 13); /* 13 characters, no terminator inside the field */
 }
 
+
+/* a certificate as the verifier holds it: a block of exactly its length (a parser that follows an
+   altered length field out of the certificate leaves the block) */
+static const octet* exact_copy(const octet* p, size_t n)
+{
+	octet* q = (octet*)sk_alloc(n ? n : 1);
+	memcpy(q, p, n);
+	return q;
+}
+#define EXACT2(CALL, P1, N1, P2, N2) do { const octet* e1_ = exact_copy(P1, N1); const octet* e2_ = exact_copy(P2, N2); \
+	CALL; sk_free((void*)e1_), sk_free((void*)e2_); } while (0)
+
 void run_cvc(uint64_t seed, const sk_mask* mask, sk_result* out)
 {
 	sk_rng r;
@@ -235,7 +247,7 @@ void run_cvc(uint64_t seed, const sk_mask* mask, sk_result* out)
 			case 2: self = A[depth ? 1 : 0].cvc; break;                 /* content of another certificate */
 			default: memset(&self, 0, sizeof(self)); self.pubkey_len = A[0].cvc.pubkey_len; break;
 			}
-			code = btokCVCUnwrap(&self, alt, A[0].certlen, self.pubkey, 0);
+			EXACT2(code = btokCVCUnwrap(&self, e1_, A[0].certlen, self.pubkey, 0), alt, A[0].certlen, alt, 0);
 			sk_text(out, "self-signed check of the root, %s, cvc before the call: %s -> rc=%u", altered ? "one octet altered" : "intact",
 				pre == 0 ? "zeroed" : pre == 1 ? "garbage" : pre == 2 ? "another certificate" : "zeroed, matching key length", (unsigned)code);
 			sk_dg_u64(&out->digest, code);
@@ -331,7 +343,7 @@ void run_cvc(uint64_t seed, const sk_mask* mask, sk_result* out)
 			afail = 0;
 			if (sk_chance(&fr, 1, 3))
 				sk_heap_fail_at(1 + (long)sk_below(&fr, 5), 0);
-			code = btokCVCVal(cert, cl, ca->cert, ca->certlen, date);
+			EXACT2(code = btokCVCVal(e1_, cl, e2_, ca->certlen, date), cert, cl, ca->cert, ca->certlen);
 			sk_heap_fail_at(0, 0);
 			if (sk_heap_failed() != failed0)
 				afail = 1, sk_count("fault.cvc_allocation_failure_during_validation", 1);
@@ -365,7 +377,7 @@ void run_cvc(uint64_t seed, const sk_mask* mask, sk_result* out)
 				long failed0 = sk_heap_failed();
 				if (!expect && sk_chance(&fr, 1, 3))
 					sk_heap_fail_at(1 + (long)sk_below(&fr, 3), 0);
-				c2 = btokCVCVal2(&cvc, cert, cl, &cvca, date);
+				EXACT2(c2 = btokCVCVal2(&cvc, e1_, cl, &cvca, date), cert, cl, cert, 0);
 				sk_heap_fail_at(0, 0);
 				afail2 = sk_heap_failed() != failed0;
 			}
@@ -474,7 +486,14 @@ void run_pki(uint64_t seed, const sk_mask* mask, sk_result* out)
 	case 4: pl = pl ? pl - 1 : 1; sk_count("fault.pki_wrong_password", 1); break;
 	}
 	memset(got, 0xEE, sizeof(got));
-	code = share ? bpkiShareUnwrap(got, &on, stored, n, pwd, pl) : bpkiPrivkeyUnwrap(got, &on, stored, n, pwd, pl);
+	{
+		/* the stored container in a block of exactly its (possibly truncated) length: a parser that
+		   follows a damaged length field out of the container leaves the block */
+		octet* exact = (octet*)sk_alloc(n ? n : 1);
+		memcpy(exact, stored, n);
+		code = share ? bpkiShareUnwrap(got, &on, exact, n, pwd, pl) : bpkiPrivkeyUnwrap(got, &on, exact, n, pwd, pl);
+		sk_free(exact);
+	}
 	sk_heap_disarm();
 	sk_text(out, "  unwrap with fault %d -> rc=%u", fault, (unsigned)code);
 	sk_dg_u64(&out->digest, code);
